@@ -205,6 +205,9 @@ func TestProp_LimitIsExact(t *testing.T) {
 		var out *vlib.RunOutcome
 		var err error
 		if viaCLI {
+			// other limits on the same command line must not move this one
+			spec.Opts.MaxFailures = rapid.SampledFrom([]uint64{0, 1, c.N + 7, 1000}).Draw(rt, "maxFailures")
+			spec.Opts.MaxFailuresRate = rapid.SampledFrom([]int{0, 0, 50}).Draw(rt, "maxFailuresRate")
 			_, err = vlib.ExecuteCLI(spec)
 		} else {
 			out, err = vlib.Execute(spec)
